@@ -288,6 +288,10 @@ def _golden_body(c, sym=False):
             return f'do_golden_runs raised {type(e).__name__}: {e}'
     finally:
         checker.execute = real
+    # round(x, 2) is within 0.005 of x; the symbolic model of round and the
+    # native one may differ by 0.01, so a symbolic counterexample must be off
+    # by more than that to be reproducible natively
+    tol = 0.0151 if sym else 0.0051
     g_out = None if c['g_timed_out'] else c['g_out']
     g_err = None if c['g_timed_out'] else c['g_err']
     missing = ((mo is not None and mo != ''
@@ -309,7 +313,7 @@ def _golden_body(c, sym=False):
             return f'explicit --timeout overwritten: {ns.timeout!r}'
     elif not c['g_timed_out']:
         want = 1.5 * (c['runtime'] + 1)
-        if not (abs(unwrap(ns.timeout) - want) <= 0.0051):
+        if not (abs(unwrap(ns.timeout) - want) <= tol):
             return (f'default time limit {ns.timeout!r} is not 1.5 x (golden '
                     f'runtime + 1) = {want!r}')
     if c['has_cc']:
@@ -318,7 +322,7 @@ def _golden_body(c, sym=False):
                 return f'explicit --timeout-cc overwritten: {ns.timeout_cc!r}'
         else:
             want = 1.5 * (c['runtime_cc'] + 1)
-            if not (abs(unwrap(ns.timeout_cc) - want) <= 0.0051):
+            if not (abs(unwrap(ns.timeout_cc) - want) <= tol):
                 return (f'default cross-check time limit {ns.timeout_cc!r} is '
                         f'not 1.5 x (runtime + 1) = {want!r}')
     return None
